@@ -592,9 +592,11 @@ def to_jsonld(triples):
     return json.dumps(list(nodes.values()), indent=1)
 
 
-def gen_aligned_graph(rng, fmt="nt", boundaries=(4096, 8192, 16384, 32768, 65536, 131072), n_classes=5, tail=40):
+def gen_aligned_graph(rng, fmt="nt", boundaries=(4096, 8192, 16384, 32768, 65536, 131072), n_classes=5, tail=40, straddle=False):
     """Statements in *document order* such that, serialised one per line in `fmt` (nt | tsv_spo), a line ends exactly
-    at every byte offset in `boundaries` (typical block / buffer sizes): the layout a chunked reader must survive."""
+    at every byte offset in `boundaries` (typical block / buffer sizes): the layout a chunked reader must survive.
+    With `straddle`, a multi-byte character inside the subject IRI of a statement lies across each boundary instead
+    (its first byte is the last byte of the block): the layout a reader that decodes block by block must survive."""
     line = (lambda t: triple_nt(t)) if fmt == "nt" else (lambda t: "%s\t%s\t%s\n" % (term_nt(t[0]), term_nt(t[1]), term_nt(t[2])))
 
     def pad(i, n):
@@ -623,6 +625,27 @@ def gen_aligned_graph(rng, fmt="nt", boundaries=(4096, 8192, 16384, 32768, 65536
         t = queue[0]
         L = len(line(t).encode())
         pb = len(line(pad(i, 0)).encode())
+        if straddle:
+            ch = ("\u00e9", "\u6771", "\U0001f600")[bidx % 3]
+            node = iri(EX + "Zo" + ch + str(i))
+            tt = (node, iri(RDF_TYPE), iri(EX + "C0"))
+            off_e = len(("<" + EX + "Zo").encode())
+            if offset + L + len(line(tt).encode()) + pb + off_e + 2 > B:
+                triples.append(tt)
+                offset += len(line(tt).encode())
+                need = B - 1 - off_e - offset - pb
+                triples.append(pad(i, need))
+                offset += pb + need
+                st = (node, iri(EX + "p0"), lit("straddle", XSD + "string"))
+                triples.append(st)
+                offset += len(line(st).encode())
+                i += 1
+                while bidx < len(boundaries) and boundaries[bidx] <= offset:
+                    bidx += 1
+                continue
+            triples.append(queue.pop(0))
+            offset += L
+            continue
         if offset + L + pb + 1 > B:
             need = B - offset - pb
             triples.append(pad(i, need))
